@@ -189,7 +189,14 @@ def _int_candidates(rng, dt, out_dt, n):
         lims += [2 ** 24, 2 ** 25, 2 ** 53, -2 ** 24]
     for _ in range(n):
         r = rng.random()
-        if r < 0.3:
+        if odt.kind == "f" and info.bits == 64 and r < 0.25:
+            # next to a midpoint between two adjacent float32 values above 2^53 (a detour
+            # through float64 would round twice)
+            e = rng.randint(54, info.bits - 2)
+            half_ulp = 2 ** (e - 24)
+            v = 2 ** e + rng.choice([1, 3, 5, 2 ** 22 + 1]) * half_ulp + rng.choice([-2, -1, 0, 1, 2])
+            v *= rng.choice([1, 1, -1]) if info.min < 0 else 1
+        elif r < 0.3:
             v = rng.randint(info.min, info.max)
         elif r < 0.6:
             k = rng.randint(0, info.bits)
